@@ -60,6 +60,9 @@ func reConcat(ts []string) string {
 	return "(re.++ " + strings.Join(ts, " ") + ")"
 }
 
+// hostRegexp stands for a *regexp.Regexp value of the interpreted program.
+type hostRegexp struct{ re *regexp.Regexp }
+
 // RegexToSMT translates pattern (search semantics of MatchString) to a RegLan.
 func RegexToSMT(pattern string) (string, error) {
 	re, err := syntax.Parse(pattern, syntax.Perl)
@@ -178,6 +181,18 @@ type LangPath struct {
 }
 
 func init() {
+	// compiled regular expressions on concrete strings are evaluated by the host's regexp package
+	// (gonum's DOT encoder decides with two of them whether an identifier needs quotes)
+	intrinsics["regexp.MustCompile"] = func(st *pstate, fr *frame, fn *ssa.Function, args []value) value {
+		return hostRegexp{regexp.MustCompile(goStr(args[0]))}
+	}
+	intrinsics["(*regexp.Regexp).MatchString"] = func(st *pstate, fr *frame, fn *ssa.Function, args []value) value {
+		re, ok := args[0].(hostRegexp)
+		if !ok {
+			panic(unsupported(fmt.Sprintf("(*regexp.Regexp).MatchString on %T", args[0])))
+		}
+		return re.re.MatchString(goStr(args[1]))
+	}
 	intrinsics["regexp.MatchString"] = func(st *pstate, fr *frame, fn *ssa.Function, args []value) value {
 		pat := goStr(args[0])
 		switch s := args[1].(type) {
